@@ -1,4 +1,4 @@
 From Coq Require Import ExtrOcamlBasic.
 From Coq Require Import NArith List.
 From EZK Require Import Lib.Bytes Model.C18.
-Extraction "../ocaml/gen/c18.ml" n2b b2n N.of_nat N.to_nat respond handle_authenticate authorize.
+Extraction "../ocaml/gen/c18.ml" n2b b2n N.of_nat N.to_nat respond handle_authenticate authorize add_for_realm set_default.
